@@ -257,7 +257,7 @@ func judge(c *Case) *core.Verdict {
 			if !ok {
 				continue
 			}
-			if foc["ns"] && !f.Implicit && g.Ns != f.Ns {
+			if foc["ns"] && g.Ns != f.Ns {
 				return fail("namespace-differs", "module %s path %s: specification %q, library %q", n, p, f.Ns, g.Ns)
 			}
 			if foc["imod"] && !f.Implicit {
@@ -283,6 +283,8 @@ func judge(c *Case) *core.Verdict {
 					return fail("units-differ", "module %s path %s: specification %q, library %q", n, p, f.Units, g.Units)
 				case g.Type != f.Type:
 					return fail("type-differs", "module %s path %s: specification %q, library %q", n, p, f.Type, g.Type)
+				case strings.Join(g.Iff, "|") != strings.Join(f.Iff, "|"):
+					return fail("constraints-differ", "module %s path %s: if-feature: specification %q, library %q", n, p, f.Iff, g.Iff)
 				}
 			}
 		}
@@ -327,7 +329,7 @@ func findChecks(c *Case, ms *yang.Modules, obs map[string]map[string]*Observed) 
 	// the prefix module w uses for module tm ("" = cannot name it)
 	prefixFor := func(w, tm string) string {
 		m := c.Prog.Mods[w]
-		if w == tm {
+		if w == tm || (m.Kind == "submodule" && m.Belongs == tm) {
 			return m.Pfx
 		}
 		var ps []string
@@ -358,19 +360,49 @@ func findChecks(c *Case, ms *yang.Modules, obs map[string]map[string]*Observed) 
 			ks = append(ks, k)
 		}
 		sort.Strings(ks)
-		deep, grafted := 0, 0
+		deep, grafted, io := 0, 0, 0
 		for _, k := range ks {
 			o := obs[n][k]
-			w := nsToMod[o.Ns]
-			if w == "" || o.Implicit {
+			// prefixes in a path mean what they mean in the (sub)module whose text
+			// holds the start node's statement (for a copy of a grouping's node:
+			// where the grouping is written)
+			w := ""
+			if o.Entry.Node != nil {
+				if rm := yang.RootNode(o.Entry.Node); rm != nil {
+					w = rm.Name
+				}
+			}
+			if _, ok := c.Prog.Mods[w]; !ok || o.Implicit {
 				continue
 			}
+			inIO := strings.Contains("/"+k+"/", "/input/") || strings.Contains("/"+k+"/", "/output/")
 			if w != n && grafted < 3 { // written by another module
 				grafted++
-				starts = append(starts, start{n + ":/" + k + " (written by " + w + ")", o.Entry, w})
+				starts = append(starts, start{n + ":/" + k + " (written in " + w + ")", o.Entry, w})
 			} else if w == n && len(o.P) >= 2 && deep < 1 {
 				deep++
 				starts = append(starts, start{n + ":/" + k, o.Entry, w})
+			} else if inIO && io < 2 { // inside rpc / action input or output
+				io++
+				starts = append(starts, start{n + ":/" + k + " (written in " + w + ")", o.Entry, w})
+			}
+		}
+	}
+	// the input / output of an rpc or action that has neither statement is a node too
+	for _, n := range names {
+		if c.Prog.Mods[n].Kind != "module" {
+			continue
+		}
+		k := 0
+		for _, key := range sortedObs(obs[n]) {
+			o := obs[n][key]
+			if (o.Kind == "rpc" || o.Kind == "action") && k < 2 && o.Entry.Node != nil && o.Entry.RPC != nil && o.Entry.RPC.Input == nil {
+				if rm := yang.RootNode(o.Entry.Node); rm != nil && c.Prog.Mods[rm.Name].Name != "" {
+					if in := o.Entry.Find("input"); in != nil {
+						k++
+						starts = append(starts, start{n + ":/" + key + "/input (unwritten)", in, rm.Name})
+					}
+				}
 			}
 		}
 	}
@@ -417,7 +449,8 @@ func findChecks(c *Case, ms *yang.Modules, obs map[string]map[string]*Observed) 
 		// relative: from every node of the same tree up to the root and down again
 		for q, from := range nodes {
 			for p, want := range nodes {
-				if len(from.P) > 3 || len(want.P) > 3 {
+				fromIO := strings.Contains("/"+q+"/", "/input/") || strings.Contains("/"+q+"/", "/output/")
+				if (len(from.P) > 3 && !(fromIO && len(from.P) <= 6)) || len(want.P) > 3 {
 					continue
 				}
 				rel := strings.Repeat("../", len(from.P)) + p
@@ -428,6 +461,15 @@ func findChecks(c *Case, ms *yang.Modules, obs map[string]map[string]*Observed) 
 		}
 	}
 	return ""
+}
+
+func sortedObs(m map[string]*Observed) []string {
+	var ks []string
+	for k := range m {
+		ks = append(ks, k)
+	}
+	sort.Strings(ks)
+	return ks
 }
 
 func desc(e *yang.Entry) string {
@@ -453,7 +495,7 @@ func init() {
 		r.Rule = "A: every program of the augment space (base module with container, list, choice/case with a shorthand member, uses copies, rpc with and without written input/output, notification; augmenting modules b and c with one augment each, targets drawn from base paths, paths another augment creates (chains), an absent path and a leaf, payloads leaf / container with config false / uses of the augmenter's grouping / two siblings / a name that collides), explored by TLC through every order of the augment loop's work list; every distinct outcome replayed: Process error presence, every path, kind and Namespace() compared. Non-trivial = every case (each has two augments)."
 		r.Exhaustive = true
 		r.Assumptions = []string{"implicit-case namespace, a wrong prefix on a non-first step and uses-augment are outside the claim", "the real map iteration order is whatever the Go runtime picks in the run (orders are exhaustive in the model only)"}
-		cfgs := tierCfgs(r, []string{"aug_quick", "aug_pair", "aug_sub_quick", "split"}, []string{"aug_sub", "aug_two"})
+		cfgs := tierCfgs(r, []string{"aug_quick", "aug_late", "aug_pair", "aug_sub_quick", "split"}, []string{"aug_sub", "aug_two"})
 		designRun(r, "C07", cfgs, nil)
 		directionB(r, "C07", false)
 	}
@@ -489,7 +531,7 @@ func init() {
 		r.Exhaustive = true
 		r.Assumptions = []string{"error texts are not compared, only presence", "bounded program spaces"}
 		col := core.NewCollector()
-		designRun(r, "C04", tierCfgs(r, []string{"aug_quick", "uses_quick", "aug_pair", "aug_sub_quick"}, []string{"aug_sub", "aug_two", "cfg", "uses", "split"}), col)
+		designRun(r, "C04", tierCfgs(r, []string{"aug_quick", "aug_late", "uses_quick", "aug_pair", "aug_sub_quick", "cfg"}, []string{"aug_sub", "aug_two", "uses", "split"}), col)
 		r.ValidateTrace("schema", col, core.TLCOpts{Module: "SchemaTrace", Cfg: "SchemaTrace.cfg", Timeout: 0, HeapGB: 8})
 		directionB(r, "C04", true)
 	}
@@ -497,7 +539,7 @@ func init() {
 		r.Rule = "A: the config space (config unset/true/false at three depths; the second and third level placed by plain nesting, uses, a shorthand choice member or case, or an augment from another module; the whole tree in the module or in a submodule; the same under rpc input, rpc output and notification without config statements) and the augment space; for every node of every clean outcome ReadOnly(), Namespace() and InstantiatingModule() are compared with the specification's reading of who wrote which statement. Non-trivial = every case."
 		r.Exhaustive = true
 		r.Assumptions = []string{"config statements inside rpc / action / notification are outside the claim", "the namespace of an implicit case itself is not compared"}
-		designRun(r, "C12", tierCfgs(r, []string{"cfg", "aug_quick"}, []string{"aug_sub", "uses"}), nil)
+		designRun(r, "C12", tierCfgs(r, []string{"cfg", "aug_quick", "aug_late", "uses_quick"}, []string{"aug_sub", "uses"}), nil)
 		directionB(r, "C12", false)
 	}
 	core.Checks["C06"] = func(r *core.Run) {
@@ -513,7 +555,7 @@ func init() {
 		r.Rule = "A: on every clean outcome of the augment space (and the uses / config spaces in the thorough tier): for every node of every module tree, Find of its absolute prefixed path from the module's own root, from the root of every importing module (with that module's prefix) and from a deep node of each, compared by pointer identity; the relative ../ path between every pair of nodes up to depth 3; and every absolute path with an absent step appended or substituted must return nothing. Non-trivial = every case."
 		r.Exhaustive = true
 		r.Assumptions = []string{"starts at rpc input/output that Find creates on demand are covered by C04"}
-		designRun(r, "C17", tierCfgs(r, []string{"aug_quick", "aug_pair", "split"}, []string{"uses", "cfg", "aug_sub"}), nil)
+		designRun(r, "C17", tierCfgs(r, []string{"aug_quick", "aug_late", "uses_quick", "aug_pair", "split"}, []string{"uses", "cfg", "aug_sub"}), nil)
 	}
 }
 
